@@ -261,10 +261,10 @@ PREF_SHAPES = [(4, 4), (6, 6), (3, 4), (4, 6), (6, 4), (2, 3), (9, 9), (2, 2), (
 def _pair_plan(tier):
     """batch-shape pairs / dtypes evaluated for the first and for the further common matrix shapes of a class pair"""
     f64, f32 = "float64", "float32"
-    first = [(f64, (), ()), (f64, (2,), (2,)), (f64, (2,), ()), (f64, (1,), (2,)), (f64, (2, 1), (3,)), (f32, (2,), (1,)), (f32, (), (2,))]
+    first = [(f64, (), ()), (f64, (2,), (2,)), (f64, (2,), ()), (f64, (1,), (2,)), (f64, (2, 1), (3,)), (f32, (2,), (1,))]
     second = [(f64, (3,), (1,)), (f32, (), ())]
     if tier != "quick":
-        first += [(f64, (), (2,)), (f64, (3, 1, 2), (2, 1)), (f64, (1, 1), ()), (f32, (2,), (2,)), (f32, (), (3, 2)), (f64, (2, 3), (2, 3)), (f32, (), ())]
+        first += [(f32, (), (2,)), (f64, (), (2,)), (f64, (3, 1, 2), (2, 1)), (f64, (1, 1), ()), (f32, (2,), (2,)), (f32, (), (3, 2)), (f64, (2, 3), (2, 3)), (f32, (), ())]
         second += [(f64, (), ()), (f64, (2,), (2,)), (f64, (), (2, 2)), (f32, (1, 2), (2,))]
     return first, second
 
@@ -301,11 +301,11 @@ def rtc_pairs(left_names, tier):
                 dt = getattr(torch, dtn)
                 if not (dtype_ok(A, dt) and dtype_ok(B, dt) and batch_ok(A, bA) and batch_ok(B, bB)):
                     continue
-                _pair_cell(rec, A, B, dt, bA, bB, n_for(A, sa), n_for(B, sb), addsub)
+                _pair_cell(rec, A, B, dt, bA, bB, n_for(A, sa), n_for(B, sb), addsub, full=(tier != "quick"))
     return rec.obligations()
 
 
-def _pair_cell(rec, A, B, dt, bA, bB, nA, nB, addsub):
+def _pair_cell(rec, A, B, dt, bA, bB, nA, nB, addsub, full=False):
     try:
         a, da = build(A, dt, bA, nA, "L", B.name, bB)
         b, db = build(B, dt, bB, nB, "R", A.name, bA)
@@ -335,7 +335,7 @@ def _pair_cell(rec, A, B, dt, bA, bB, nA, nB, addsub):
             check_value(rec, f"sub_method/{A.name}-{B.name}", lab + "|sub(alpha=0.5)", lambda: a.sub(b, alpha=0.5), da - 0.5 * db)
             if not (root_after_mul(b, 1.5) and not A.psd):
                 check_value(rec, f"sub_method/{A.name}-{B.name}", lab + "|sub(alpha=-1.5)", lambda: a.sub(b, alpha=-1.5), da + 1.5 * db)
-        if pd and da.shape[-1] == da.shape[-2]:
+        if pd and da.shape[-1] == da.shape[-2] and (full or (bA, bB) in (((), ()), ((2,), (2,)), ((1,), (2,)), ((3,), (1,)))):
             # operator-by-operator elementwise product (root decompositions): PSD operands
             check_value(rec, f"mul_op{'' if bc == 'same' else '_bcast'}/{A.name}*{B.name}", lab, lambda: a * b, da * db, scale=100.0)
     if da.shape[-1] == db.shape[-2]:
@@ -354,15 +354,22 @@ SIZES_T = [1, 2, 3, 4, 6]
 
 
 def _instances(names, tier, batches=None, sizes=None, dtypes=None, square=None, psd=None):
-    """yield (label, case, mk, dense): mk() builds a *fresh* operator with identical values"""
+    """yield (label, case, mk, dense): mk() builds a *fresh* operator with identical values.
+    quick: float64 over all batch shapes x sizes, float32 over a sub-grid; thorough: the full product"""
     batches = batches or (BATCHES_Q if tier == "quick" else BATCHES_T)
     sizes = sizes or (SIZES_Q if tier == "quick" else SIZES_T)
-    dtypes = dtypes or [torch.float64, torch.float32]
+    if dtypes is not None or tier != "quick":
+        grid = list(itertools.product(dtypes or [torch.float64, torch.float32], batches, sizes))
+    else:
+        grid = list(itertools.product([torch.float64], batches, sizes))
+        grid += list(itertools.product([torch.float32], [b for i, b in enumerate(batches) if i % 2 == 1] or batches[:1], sizes[-2:]))
     for name in names:
         c = case_of(name)
         if psd is not None and c.psd != psd:
             continue
-        for dt, batch, n in itertools.product(dtypes, batches, sizes):
+        for dt, batch, n in grid:
+            if c.name in ("perm", "tperm"):
+                dt = torch.float32  # float32-only classes: use the whole grid in float32
             if not (dtype_ok(c, dt) and batch_ok(c, batch)) or (c.name == "tperm" and n > 3):
                 continue
 
@@ -618,6 +625,13 @@ def rtc_diag_lowrank(names, tier):
             exp = torch.cat([torch.cat([d, Bm.mT], -1), torch.cat([Bm, Dm], -1)], -2)
             for gr in (True, False):
                 check_value(rec, f"cat_rows/{cn}", f"{label}|k={k}|generate_roots={gr}", lambda: mk().cat_rows(Bm, Dm, generate_roots=gr), exp, scale=10.0)
+            # cross_mat / new_mat with one more (leading) batch dim than the operator: the operator is expanded
+            Cx = zoo.rn(g, 2, *batch, 1, n, dtype=dt) * 0.3
+            Bx = Cx @ d
+            Dx = Cx @ d @ Cx.mT + 1.5
+            dx = d.expand(2, *d.shape)
+            expx = torch.cat([torch.cat([dx, Bx.mT], -1), torch.cat([Bx, Dx], -1)], -2)
+            check_value(rec, f"cat_rows/{cn}", f"{label}|k=1|cross_extra_batch|generate_roots=False", lambda: mk().cat_rows(Bx, Dx, generate_roots=False), expx, scale=10.0)
         for dim in list(range(nb)) + [-(3 + i) for i in range(nb)]:
             pos = dim % (nb + 2)
             check_value(rec, f"prod/{cn}", f"{label}|prod({dim})", lambda: mk().prod(dim), d.prod(pos), scale=100.0)
@@ -721,7 +735,9 @@ class _Prog:
     # -- one checked step
     def step(self, opname, text, fn, exp, operands, pd=False, scale=1.0, allowed=UNSUPPORTED):
         group = f"prog/{opname}/" + ",".join(_cls(o.v) if isinstance(o, _Val) else str(o) for o in operands)
-        label = f"p{self.idx}|{_dts(self.dt)}|{self.shape[0]}x{self.shape[1]}: {text}"
+        bs = [tuple(o.d.shape[:-2]) for o in operands if isinstance(o, _Val)]
+        bc = "" if len(bs) < 2 else ("|same" if bs[0] == bs[1] else "|bcast")
+        label = f"p{self.idx}|{_dts(self.dt)}|{self.shape[0]}x{self.shape[1]}{bc}: {text}"
         mag = max([o.mag for o in operands if isinstance(o, _Val)] + [float(exp.abs().max()) if exp.numel() else 0.0])
         ref = max(1.0, float(exp.abs().max()) if exp.numel() else 1.0)
         r = check_value(self.rec, group, label, fn, exp, scale=scale * max(1.0, mag / ref), allowed=allowed)
